@@ -447,7 +447,27 @@ func c01SR(kinds []int, rd bufiox.Reader, prelen int) V {
 			return Ls(Ls(), c01ErrCls(err), I(rd.ReadLen()))
 		}
 	}
+	// BufferReaders come from a pool: a previous tenant over a reader of the OTHER kind (and before it one
+	// of the same kind) has used and recycled the object this case is about to get; nothing of theirs may
+	// show through
+	decoy := func(sameKind bool) {
+		d := Pat(0xA5, 64)
+		_, isDefault := rd.(*bufiox.DefaultReader)
+		var prev bufiox.Reader
+		if isDefault == sameKind {
+			prev = bufiox.NewDefaultReader(&c01Src{data: d, final: io.EOF})
+		} else {
+			prev = bufiox.NewBytesReader(d)
+		}
+		p := thrift.NewBufferReader(prev)
+		p.ReadI64()
+		p.ReadFieldBegin()
+		p.Recycle()
+	}
+	decoy(true)
+	decoy(false)
 	r := thrift.NewBufferReader(rd)
+	defer r.Recycle()
 	var vals VL
 	var ec V = Ls()
 	for _, k := range kinds {
